@@ -99,6 +99,9 @@ pub fn window_triples(anchors: Option<&[(usize, usize)]>) -> Vec<(usize, usize, 
 /// quick anchors: 4 corners, 4 trap-centred windows, 1 centre window (top-left corners as (file,row))
 pub const QUICK_ANCHORS: [(usize, usize); 9] = [(0, 0), (5, 0), (0, 5), (5, 5), (1, 1), (4, 1), (1, 4), (4, 4), (3, 3)];
 
+/// quick anchors: a1 corner, h8 corner, c3-centred, f6-centred, centre
+pub const QUICK_ANCHORS5: [(usize, usize); 5] = [(0, 5), (5, 0), (1, 4), (4, 1), (3, 3)];
+
 pub fn f3w(anchors: Option<&[(usize, usize)]>, kinds: &'static [usize], label: &str) -> Family {
     let triples = window_triples(anchors);
     let nk = kinds.len() as u64;
